@@ -7,7 +7,7 @@ linearizability checker against the sequential reference cache (cachemodel.py).
 import time
 
 from checks import common
-from checks.cachemodel import Model, on_miss_fn
+from checks.cachemodel import Model, on_miss_fn, prefetch_pairs
 from checks import sched as S
 from checks.c02_cache import probe_order
 
@@ -57,7 +57,10 @@ def monitor():
 def to_model_op(op):
     name = op[0]
     if name == 'update':
-        return ('update', [tuple(p) for p in op[1]])
+        pairs = [tuple(p) for p in op[1]]
+        if len(op) > 2 and op[2] in ('dict', 'kw'):
+            pairs = list(dict(pairs).items())
+        return ('update', pairs)
     if name == 'eq':
         return ('eq', [tuple(p) for p in op[1]])
     if name == 'copy':
@@ -87,7 +90,17 @@ def make_do_op(cache):
         if n == 'popitem':
             return cache.popitem()
         if n == 'update':
-            return cache.update([tuple(p) for p in op[1]])
+            shape = op[2] if len(op) > 2 else 'pairs'
+            pairs = [tuple(p) for p in op[1]]
+            if shape == 'dict':
+                return cache.update(dict(pairs))
+            if shape == 'kw':
+                return cache.update((), **dict(pairs))
+            if shape == 'ior':
+                c2 = cache
+                c2 |= pairs
+                return None
+            return cache.update(pairs)
         if n == 'clear':
             return cache.clear()
         if n == 'eq':
@@ -123,12 +136,19 @@ def build(case):
     install_lock_factory()
     cls = cu.LRU if case['cls'] == 'LRU' else cu.LRI
     kw = {}
-    if case.get('on_miss'):
+    holder = []
+    if case.get('on_miss') == 'prefetch':
+        def loader(key):        # a loader that stores a whole page into the cache itself (nested, re-entrant)
+            holder[0].update(prefetch_pairs(key))
+            return on_miss_fn(key)
+        kw['on_miss'] = loader
+    elif case.get('on_miss'):
         kw['on_miss'] = on_miss_fn
     cache = cls(max_size=case['max_size'], **kw)
+    holder.append(cache)
     for k, v in case.get('prefill', []):
         cache[k] = v
-    model = Model(case['max_size'], case['cls'] == 'LRU', bool(case.get('on_miss')))
+    model = Model(case['max_size'], case['cls'] == 'LRU', case.get('on_miss') or False)
     st0 = model.initial([tuple(p) for p in case.get('prefill', [])])
     return cache, model, st0
 
@@ -234,7 +254,7 @@ def gen_case(r, ctx):
     nkeys = r.choice([2, 3, 4])
     keys = KEYS[:nkeys]
     ms = r.choice([1, 2, 2, 3])
-    case = {'cls': r.choice(['LRI', 'LRU']), 'max_size': ms, 'on_miss': r.random() < 0.3}
+    case = {'cls': r.choice(['LRI', 'LRU']), 'max_size': ms, 'on_miss': r.choice([False] * 7 + [True, True, 'prefetch'])}
     if r.random() < 0.75:
         case['prefill'] = [[k, i] for i, k in enumerate(r.sample(keys, min(ms, nkeys)))]
     else:
@@ -264,7 +284,8 @@ def gen_case(r, ctx):
             elif kind == 'pop':
                 ops.append(['pop', k, v] if r.random() < 0.5 else ['pop', k])
             elif kind == 'update':
-                ops.append(['update', [[r.choice(keys), v * 100 + j] for j in range(r.randint(1, 3))]])
+                ops.append(['update', [[r.choice(keys), v * 100 + j] for j in range(r.randint(1, 3))],
+                            r.choice(['pairs', 'pairs', 'dict', 'kw', 'ior'])])
             elif kind == 'eq':
                 ops.append(['eq', [[kk, r.randint(0, 3)] for kk in r.sample(keys, r.randint(0, min(ms, nkeys)))]])
             else:
